@@ -40,6 +40,22 @@ EXTRA_CONSTS = [  # (lean name, C expr, signed?)
     ("stackGuardNone", "ABTI_STACK_GUARD_NONE", False),
     ("stackGuardMprotect", "ABTI_STACK_GUARD_MPROTECT", False),
     ("stackGuardMprotectStrict", "ABTI_STACK_GUARD_MPROTECT_STRICT", False),
+    # ABT_sched_config / ABT_pool_config (sched_config.c, pool_config.c)
+    ("schedConfigHtableSize", "SCHED_CONFIG_HTABLE_SIZE", False),
+    ("poolConfigHtableSize", "POOL_CONFIG_HTABLE_SIZE", False),
+    ("schedConfigInt", "ABT_SCHED_CONFIG_INT", True),
+    ("schedConfigDouble", "ABT_SCHED_CONFIG_DOUBLE", True),
+    ("schedConfigPtr", "ABT_SCHED_CONFIG_PTR", True),
+    ("poolConfigInt", "ABT_POOL_CONFIG_INT", True),
+    ("poolConfigDouble", "ABT_POOL_CONFIG_DOUBLE", True),
+    ("poolConfigPtr", "ABT_POOL_CONFIG_PTR", True),
+    ("schedConfigVarEndIdx", "ABT_sched_config_var_end.idx", True),
+    ("schedConfigAccessIdx", "ABT_sched_config_access.idx", True),
+    ("schedConfigAutomaticIdx", "ABT_sched_config_automatic.idx", True),
+    ("schedBasicFreqIdx", "ABT_sched_basic_freq.idx", True),
+    ("poolConfigAutomaticKey", "ABT_pool_config_automatic.key", True),
+    ("sizeofSchedConfigElement", "sizeof(sched_config_element)", False),
+    ("sizeofPoolConfigElement", "sizeof(pool_config_element)", False),
 ]
 
 
@@ -172,7 +188,8 @@ def evaluate(exprs):
     exe = os.path.join(d, "envgen_eval")
     dyn = set()
     for attempt in range(3):
-        lines = ['#include "arch/abtd_env.c"', '#include "arch/abtd_affinity_parser.c"', "#include <stdio.h>",
+        lines = ['#include "arch/abtd_env.c"', '#include "arch/abtd_affinity_parser.c"',
+                 '#include "sched/sched_config.c"', '#include "pool/pool_config.c"', "#include <stdio.h>",
                  "#include <limits.h>", "#include <stdint.h>"]
         where = {}
         for i, (e, signed) in enumerate(exprs):
